@@ -748,3 +748,49 @@ C12_INIT_PLATES = dict(
     implicit_return="tt",
 )
 ALL += [C12_INIT_OBS, C12_INIT_PLATES]
+
+# ---- C05: scoring/gaussian_dbal.py (vocabulary: end of Model/Dbal.v) ----
+# Float arrays are lists of lists of exact rationals (arr2 / arr3; arr3n with None = NaN), the plates dict is an
+# insertion-ordered association list, a ScreenSubset is `pyplate` = (selection_vector, (means, variances)): what
+# predict_mean_all / predict_variance_all return for it.  `draws` = the recorded rng.choice answers not yet consumed.
+_ZIP_A2 = ("zip(__a, __b)", "combine {a} {b}", "list (arr2 * arr2)", {"a": "list arr2", "b": "list arr2"})
+_SHAPE_NE = ("__a.shape != __b.shape", "shape_ne {a} {b}", "bool", {"a": "arr2", "b": "arr2"})
+_PAD0 = ("pad_ragged_arrays_to_dense_array(__a, pad_value=0.0)", "!pad_means_py {a}", "arr3", {"a": "list arr2"})     # linked: C05_PAD
+_PADN = ("pad_ragged_arrays_to_dense_array(__a, pad_value=np.nan)", "!pad_vars_py {a}", "arr3n", {"a": "list arr2"})  # linked: C05_PAD
+C05_SCORE = dict(
+    file="src/batchie/scoring/gaussian_dbal.py", cls="GaussianDBALScorer", func="score",
+    out="SrcDbal.v", imports="Lib.Num Model.Dbal", name="src_score", overload=True,
+    pyparams=["self", "plates", "distance_matrix", "samples", "rng", "progress_bar"],
+    # D = distance_matrix.to_dense(); samples / rng / progress_bar occur only inside the primitives below
+    params=[("orc", "oracle"), ("max_chunk", "Z"), ("plates", "dict pyplate"), ("D", "arr2"), ("draws", "list list Z")],
+    returns="dict ext",
+    vars={"n_subs": "Z", "plate_subgroups": "list list Z", "dense_distance_matrix": "arr2", "progress_bar": "tqdm_t",
+          "result": "dict ext", "plate_subgroup": "list Z", "k": "Z", "current_plates": "list pyplate",
+          "plate_subgroup_mask": "opt list bool", "plate": "pyplate", "per_plate_means": "list arr2",
+          "per_plate_variances": "list arr2", "plate_predictions": "arr2", "plate_variances": "arr2",
+          "padded_means": "arr3", "padded_variances": "arr3n", "vals": "list ext"},
+    prims=[
+        ("self.max_chunk", "max_chunk", "Z"),
+        ("np.ceil(__a / __b)", "!np_ceil_div {a} {b}", "Z", {"a": "Z", "b": "Z"}),
+        ("np.array_split(__l, __n)", "!np_array_split {l} {n}", "list list Z", {"l": "list Z", "n": "Z"}),
+        ("list(__d.keys())", "map fst {d}", "list Z", {"d": "dict pyplate"}),
+        ("distance_matrix.to_dense()", "D", "arr2"),
+        ("tqdm.tqdm(total=len(__l), disable=not progress_bar)", "tt", "tqdm_t"),
+        ("len(__l)", "Z.of_nat (length {l})", "Z"),
+        ("__p.selection_vector", "pp_sel {p}", "list bool", {"p": "pyplate"}),
+        ("__a | __b", "!np_or_vec {a} {b}", "list bool", {"a": "list bool", "b": "list bool"}),
+        ("predict_mean_all(screen=__p, thetas=samples)", "pp_means {p}", "arr2", {"p": "pyplate"}),
+        ("predict_variance_all(screen=__p, thetas=samples)", "pp_vars {p}", "arr2", {"p": "pyplate"}),
+        _ZIP_A2, _SHAPE_NE, _PAD0, _PADN,
+        ("zip(__a, __b)", "combine {a} {b}", "list (Z * ext)", {"a": "list Z", "b": "list ext"}),
+        ("dict(__l)", "dict_of_pairs {l}", "dict ext", {"l": "list (Z * ext)"}),
+    ],
+    # the kernel with exactly these keyword arguments (distance_factor not passed = its default 1.0); it consumes one recorded draw
+    state_calls=[("dbal_fast_gauss_scoring_vectorized(predictions=__p, variances=__v, distance_matrix=__d, rng=rng, "
+                  "max_combos=self.max_triples)", ["draws"], "kernel_call orc {p} {v} {d} one_q draws", "list ext",
+                  {"p": "arr3", "v": "arr3n", "d": "arr2"})],
+    effects=[("result.update(__d)", "result'", "dict_update {state} {d}")],
+    ignore=["progress_bar.update(__a)"],
+    raises=[("plate_predictions and plate_variances must have the same shape", 24), ("plates to be scored", 28)],
+)
+ALL += [C05_SCORE]
